@@ -216,11 +216,24 @@ func c27Run(c *Ctx) {
 	var fns []func()
 	for t := 0; t < ncall; t++ {
 		n := 2 + c.W.Draw(10)
+		// When the sender's system stops mid-traffic, some callers tell through the
+		// package-level actor.Tell: for a remote PID it goes straight to the remoting
+		// client without asking whether a local sender actor is still alive, so these
+		// callers keep submitting while (and after) the client closes its coalescers.
+		viaAPI := closeEarly && c.W.Draw(2) == 1
+		if viaAPI {
+			c.Probe("caller-tells-through-package-api-during-stop")
+		}
 		fns = append(fns, func() {
 			for k := 0; k < n; k++ {
 				tag := c.Seq()
 				c.Ops++
-				err := fpid.Tell(rp.A.Ctx, target, rmsg(tag, t, k, ""))
+				var err error
+				if viaAPI {
+					err = actor.Tell(rp.A.Ctx, target, rmsg(tag, t, k, ""))
+				} else {
+					err = fpid.Tell(rp.A.Ctx, target, rmsg(tag, t, k, ""))
+				}
 				if err == nil {
 					st.accepted[tag] = [2]int{t, k}
 					rp.A.Ev(Ev{Actor: "sink", Kind: "tell-ok", Tag: tag, From: t, MSeq: k})
